@@ -140,7 +140,11 @@ where
             let mut shard = shard.write();
             match shard.entry(self.hash(), |p| self.key() == p.key(), |p| p.hash()) {
                 HashTableEntry::Occupied(o) => {
-                    o.remove();
+                    // Only remove the piece registered by this reference. A newer version of the same key may
+                    // have replaced it and must stay visible until its own reference is dropped.
+                    if o.get().ptr_eq(&self.piece) {
+                        o.remove();
+                    }
                 }
                 HashTableEntry::Vacant(_) => {}
             }
